@@ -860,6 +860,20 @@ func ruleC13Nil(c *Ctx) {
 	put := p.ExtMethod(bboltPath, "Bucket", "Put")
 	prepend := p.Func("boltz", "PrependFieldType")
 	fi2 := ComputeFacts(st)
+	// the type tag parameter and the value parameter, by type (their position is not fixed)
+	var typePrm, valuePrm *ssa.Parameter
+	for _, prm := range st.Params {
+		if n := namedOf(prm.Type()); n != nil && n.Obj().Name() == "FieldType" {
+			typePrm = prm
+		}
+		if sl, isSl := prm.Type().Underlying().(*types.Slice); isSl && types.Identical(sl.Elem(), types.Typ[types.Byte]) {
+			valuePrm = prm
+		}
+	}
+	if typePrm == nil || valuePrm == nil {
+		c.Undecided("C13.NIL", "boltz.TypedBucket.setTyped", p.Pos(st.Pos()), "setTyped no longer takes a FieldType and a []byte value")
+		return
+	}
 	okS, whyS := true, ""
 	nPut := 0
 	for _, call := range callsIn(st) {
@@ -891,13 +905,13 @@ func ruleC13Nil(c *Ctx) {
 					}
 				}
 			}
-			valueNonNil := e.facts[Fact{"nonnil", st.Params[3], true}]
+			valueNonNil := e.facts[Fact{"nonnil", valuePrm, true}]
 			typeNotNil := false
 			for f := range e.facts {
 				if f.Kind != "true" {
 					continue
 				}
-				if bo, ok := f.V.(*ssa.BinOp); ok && bo.X == ssa.Value(st.Params[1]) && ((bo.Op == token.EQL && !f.Pol) || (bo.Op == token.NEQ && f.Pol)) {
+				if bo, ok := f.V.(*ssa.BinOp); ok && bo.X == ssa.Value(typePrm) && ((bo.Op == token.EQL && !f.Pol) || (bo.Op == token.NEQ && f.Pol)) {
 					typeNotNil = true
 				}
 			}
@@ -907,7 +921,7 @@ func ruleC13Nil(c *Ctx) {
 				}
 			} else {
 				pc, ok := val.(*ssa.Call)
-				if !ok || !isCallTo(pc, prepend) || pc.Call.Args[0] != ssa.Value(st.Params[1]) || pc.Call.Args[1] != ssa.Value(st.Params[3]) {
+				if !ok || !isCallTo(pc, prepend) || pc.Call.Args[0] != ssa.Value(typePrm) || pc.Call.Args[1] != ssa.Value(valuePrm) {
 					okS, whyS = false, "a non-nil value is not written as PrependFieldType(fieldType, value)"
 				} else if !valueNonNil {
 					okS, whyS = false, "PrependFieldType encoding is used on a path where value may be nil (null would be stored as an empty value of the type)"
